@@ -464,107 +464,120 @@ func ixcWorkload(prop string, args []string) int {
 			guard(w, "grp06", func() { grp05Case(w, a, id, vlog.CaseRand(a.Seed, "grp05", id), opts, "C06") })
 			continue
 		}
-		w.CaseStart(id, map[string]interface{}{"no_audit": opts.NoAudit})
-		guard(w, "ixc", func() {
-			fx, err := ensureFixture(a.Work, opts)
-			if err != nil {
-				w.Inconclusive("fixture: " + err.Error())
-				w.CaseDone("fixture-error", false)
-				return
-			}
-			dir := filepath.Join(a.Work, fmt.Sprintf("case-%d", id))
-			defer os.RemoveAll(dir)
-			if err := harness.CopyDir(fx, dir); err != nil {
-				w.Inconclusive(err.Error())
-				return
-			}
-			world, err := harness.OpenWorld(dir, opts)
-			if err != nil {
-				w.Violation("open:error", err.Error(), nil)
-				w.CaseDone("open-error", false)
-				return
-			}
-			seenSig := map[string]bool{}
-			unordCase := prop == "C02" && id%20 == 19
-			ir := &ixRun{prop: prop, w: w, world: world, opts: opts, dir: dir, m: model.NewIx(), rng: rng, lastSt: map[string]int{}, finalH: map[string]uint64{}}
-			ir.viol = func(p, sig, detail string) {
-				if p != prop {
-					w.Count("other_property_observations:"+p, 1)
-					return
-				}
-				if unordCase {
-					w.Count("unordered_destination_observations", 1)
-					return
-				}
-				if seenSig[sig] {
-					return
-				}
-				seenSig[sig] = true
-				w.Violation(sig, detail, map[string]interface{}{"blocks": ir.blocks, "no_audit": opts.NoAudit})
-			}
-			pairs := ixPairs(rng)
-			// C02 only, every 20th case: the single pair whose DESTINATION is the service registered as unordered.
-			// For such a destination the interchain contract skips the request index check by design ("batch"
-			// services); C02 is stated for ordered pairs, so what the oracle sees there is counted as an
-			// observation and decides nothing (DESIGN.md 9.3) - the case still runs under the race detector
-			if unordCase {
-				pairs = []ixPairDef{{ixServices[0], harness.FullID(harness.ChainC, "s3"), true, false}}
-			}
-			nBlocks := 25 + rng.Intn(15)
-			shape := map[string]bool{}
-			for b := 0; b < nBlocks; b++ {
-				if rng.Intn(10) == 0 && b > 0 {
-					ir.blocks = append(ir.blocks, []ixEvent{{Kind: "restart"}})
-					world.R.Close()
-					world, err = harness.OpenWorld(dir, opts)
-					if err != nil {
-						w.Violation("reopen:error", err.Error(), nil)
-						break
-					}
-					ir.world = world
-					shape["restart"] = true
-					w.Count("restarts", 1)
-				}
-				evs := ir.genBlock(pairs)
-				ir.blocks = append(ir.blocks, evs)
-				if err := ir.runBlock(evs); err != nil {
-					w.Violation("exec:error", err.Error(), map[string]interface{}{"blocks": ir.blocks})
-					break
-				}
-				// the delivery sets the real router builds for this block (live and replay path)
-				for _, f := range ir.world.R.TakeRouterFindings() {
-					p := map[string]string{"transactions": "C02", "roots": "C02", "height": "C02", "timeout": "C06", "multitx": "C05"}[f.Part]
-					ir.viol(p, "delivery:"+f.Sig, f.Detail)
-				}
-				w.Count("router_blocks_checked", 1)
-			}
-			world.R.Close()
-			cnt := map[string]int{}
-			for _, tx := range ir.m.Txs {
-				var hs []string
-				for _, s := range tx.History {
-					hs = append(hs, s[strings.Index(s, ":")+1:])
-				}
-				cnt[strings.Join(hs, ">")]++
-			}
-			var sh []string
-			for k := range shape {
-				sh = append(sh, k)
-			}
-			for k, n := range cnt {
-				sh = append(sh, fmt.Sprintf("%s x%d", k, n))
-			}
-			sort.Strings(sh)
-			if id == a.From {
-				n := len(ir.blocks)
-				if n > 8 {
-					n = 8
-				}
-				w.Sample(map[string]interface{}{"case": id, "first_blocks": ir.blocks[:n]})
-			}
-			w.CaseDone(strings.Join(sh, "|"), len(ir.m.Txs) > 0)
-		})
+		ixcCase(prop, w, a, id, rng, opts)
 	}
 	w.End()
 	return 0
+}
+
+// ixcCase runs one generated interchain history through the real executor. prop selects which of the oracles'
+// verdicts count: C02 / C04 / C06 (and C05 for the group notifications), or C10 for the root monitor alone.
+func ixcCase(prop string, w *vlog.W, a *wargs, id int, rng *rand.Rand, opts harness.Options) {
+	w.CaseStart(id, map[string]interface{}{"no_audit": opts.NoAudit})
+	guard(w, "ixc", func() {
+		fx, err := ensureFixture(a.Work, opts)
+		if err != nil {
+			w.Inconclusive("fixture: " + err.Error())
+			w.CaseDone("fixture-error", false)
+			return
+		}
+		dir := filepath.Join(a.Work, fmt.Sprintf("case-%d", id))
+		defer os.RemoveAll(dir)
+		if err := harness.CopyDir(fx, dir); err != nil {
+			w.Inconclusive(err.Error())
+			return
+		}
+		world, err := harness.OpenWorld(dir, opts)
+		if err != nil {
+			w.Violation("open:error", err.Error(), nil)
+			w.CaseDone("open-error", false)
+			return
+		}
+		seenSig := map[string]bool{}
+		unordCase := prop == "C02" && id%20 == 19
+		ir := &ixRun{prop: prop, w: w, world: world, opts: opts, dir: dir, m: model.NewIx(), rng: rng, lastSt: map[string]int{}, finalH: map[string]uint64{}}
+		ir.viol = func(p, sig, detail string) {
+			if p != prop {
+				w.Count("other_property_observations:"+p, 1)
+				return
+			}
+			if unordCase {
+				w.Count("unordered_destination_observations", 1)
+				return
+			}
+			if seenSig[sig] {
+				return
+			}
+			seenSig[sig] = true
+			w.Violation(sig, detail, map[string]interface{}{"blocks": ir.blocks, "no_audit": opts.NoAudit})
+		}
+		pairs := ixPairs(rng)
+		// C02 only, every 20th case: the single pair whose DESTINATION is the service registered as unordered.
+		// For such a destination the interchain contract skips the request index check by design ("batch"
+		// services); C02 is stated for ordered pairs, so what the oracle sees there is counted as an
+		// observation and decides nothing (DESIGN.md 9.3) - the case still runs under the race detector
+		if unordCase {
+			pairs = []ixPairDef{{ixServices[0], harness.FullID(harness.ChainC, "s3"), true, false}}
+		}
+		nBlocks := 25 + rng.Intn(15)
+		shape := map[string]bool{}
+		for b := 0; b < nBlocks; b++ {
+			if rng.Intn(10) == 0 && b > 0 {
+				ir.blocks = append(ir.blocks, []ixEvent{{Kind: "restart"}})
+				world.R.Close()
+				world, err = harness.OpenWorld(dir, opts)
+				if err != nil {
+					w.Violation("reopen:error", err.Error(), nil)
+					break
+				}
+				ir.world = world
+				shape["restart"] = true
+				w.Count("restarts", 1)
+			}
+			evs := ir.genBlock(pairs)
+			ir.blocks = append(ir.blocks, evs)
+			if err := ir.runBlock(evs); err != nil {
+				w.Violation("exec:error", err.Error(), map[string]interface{}{"blocks": ir.blocks})
+				break
+			}
+			// the delivery sets the real router builds for this block (live and replay path)
+			for _, f := range ir.world.R.TakeRouterFindings() {
+				p := map[string]string{"transactions": "C02", "roots": "C02", "height": "C02", "timeout": "C06", "multitx": "C05"}[f.Part]
+				ir.viol(p, "delivery:"+f.Sig, f.Detail)
+			}
+			w.Count("router_blocks_checked", 1)
+			// what the state root of this block stands for (harness/rootmon.go)
+			for _, f := range ir.world.R.TakeRootFindings() {
+				ir.viol("C10", "root:block:"+f.Sig, f.Detail)
+			}
+		}
+		w.Count("root_blocks_checked", int64(world.R.RootBlocks))
+		w.Count("root_journals_compared", int64(world.R.RootJournals))
+		w.Count("root_journal_accounts", int64(world.R.RootAccounts))
+		world.R.Close()
+		cnt := map[string]int{}
+		for _, tx := range ir.m.Txs {
+			var hs []string
+			for _, s := range tx.History {
+				hs = append(hs, s[strings.Index(s, ":")+1:])
+			}
+			cnt[strings.Join(hs, ">")]++
+		}
+		var sh []string
+		for k := range shape {
+			sh = append(sh, k)
+		}
+		for k, n := range cnt {
+			sh = append(sh, fmt.Sprintf("%s x%d", k, n))
+		}
+		sort.Strings(sh)
+		if id == a.From {
+			n := len(ir.blocks)
+			if n > 8 {
+				n = 8
+			}
+			w.Sample(map[string]interface{}{"case": id, "first_blocks": ir.blocks[:n]})
+		}
+		w.CaseDone(strings.Join(sh, "|"), len(ir.m.Txs) > 0)
+	})
 }
